@@ -2191,6 +2191,9 @@ class _Simu(_IObserver, _params.Updatable, ABC):
 
     def Bc_Init(self) -> None:
         """Initializes Dirichlet, Neumann and Lagrange boundary conditions"""
+        if len(getattr(self, "_Simu__Bc_Lagrange", [])) > 0:
+            # Lagrange conditions enlarge the matrix system: removing them changes its size
+            self.Need_Update()
         # DIRICHLET
         self.__Bc_Dirichlet: list[BoundaryCondition] = []
         """Dirichlet conditions list[BoundaryCondition]"""
@@ -3034,6 +3037,10 @@ class _Simu(_IObserver, _params.Updatable, ABC):
         )
 
         self.__Bc_Dirichlet.append(new_Bc)
+
+        if len(self.__Bc_Lagrange) > 0:
+            # with Lagrange conditions the system has one extra row per Dirichlet dof
+            self.Need_Update()
 
         tic.Tac("Boundary Conditions", "Add Dirichlet condition", self._verbosity)
 
